@@ -9,13 +9,7 @@ Property theorems only.  `cfg.gen` selects the engine: `true` = `Converter` (hoo
 `Annotated`, NewType and heterogeneous tuples over primitives only).
 -/
 namespace CattrsModel
-
-theorem convStructure_eq_stF (w : World) (cfg : Cfg) (t : Ty) (o : Obj) :
-    convStructure w cfg t o = stF w cfg.core t o := by
-  unfold convStructure
-  split
-  · exact modes_agree w cfg.core t o
-  · rfl
+open GenInterp
 
 /-- **Structuring.**  For every class table and type in the common support, every shared configuration (strategy,
 validation mode; `forbid_extra_keys` is a `Converter`-only option and off) and **every input object** `o` — valid,
@@ -56,29 +50,29 @@ theorem C06_nonmapping_witness :
   · simp [mapsAtCls]
 
 /-- **Unstructuring** (partial: see below).  For a well-typed value `x` of a type in the common support whose set
-elements and dict keys are scalars (`Obj.scalarKeys`; otherwise `Converter` raises, recorded finding F10), under the
+elements and dict keys are scalars (`scalarKeys`; otherwise `Converter` raises, recorded finding F10), under the
 tuple strategy or when no class has an `init=False` field: the two converters produce the same unstructured data
 up to `Converter` turning tuples and deques into lists (`normSeq`).
 
 Full statement (NOT a theorem — `C06_initfalse_witness` refutes it; recorded finding F43):
-  `t.supU false → w.SupU false → wellTyped w t x → x.scalarKeys →
+  `t.supU false → w.SupU false → wellTyped w t x → (scalarKeys x) →
      normSeq (convUnstructure w {cfg with gen := false} t x) = normSeq (convUnstructure w {cfg with gen := true} t x)`
 What is missing in the proved version is exactly the region of F43: dict strategy and a class with an
 `init=False` field (`BaseConverter` emits it, `Converter` leaves it out). -/
 theorem C06_unstruct_agree_partial (w : World) (cfg : Cfg) (t : Ty) (x : Obj)
     (hs : t.supU false = true) (hws : w.SupU false)
-    (hI : cfg.tupleStrat = true ∨ w.AllInit)
-    (hwt : wellTyped w t x = true) (hsk : x.scalarKeys = true) :
+    (hI : cfg.tupleStrat = true ∨ (AllInit w))
+    (hwt : wellTyped w t x = true) (hsk : (scalarKeys x) = true) :
     normSeq (convUnstructure w { cfg with gen := false } t x) = normSeq (convUnstructure w { cfg with gen := true } t x) :=
   ((un_agree_aux w ({ cfg with gen := false } : Cfg).core ({ cfg with gen := true } : Cfg).core hws rfl rfl rfl hI
       (sizeOf x)).2 (sizeOf t) t x (Nat.le_refl _) (Nat.le_refl _) hs hwt hsk).2
 
 /-- The same with type-level hypotheses only: no `Any` position and no untyped field, set-element and mapping-key
-types hashable primitives (`Ty.keysHP` / `World.KeysHP`, i.e. `Ty.hashPrim` as in the C01 round trip) — then every
+types hashable primitives (`keysHP` / `KeysHP`, i.e. `Ty.hashPrim` as in the C01 round trip) — then every
 well-typed value has scalar set elements and dict keys (`scalarKeys_of_typed`). -/
 theorem C06_unstruct_agree_typed_partial (w : World) (cfg : Cfg) (t : Ty) (x : Obj)
-    (hs : t.supU false = true) (hws : w.SupU false) (hp : t.keysHP = true) (hk : w.KeysHP)
-    (hI : cfg.tupleStrat = true ∨ w.AllInit)
+    (hs : t.supU false = true) (hws : w.SupU false) (hp : (keysHP t) = true) (hk : (KeysHP w))
+    (hI : cfg.tupleStrat = true ∨ (AllInit w))
     (hwt : wellTyped w t x = true) :
     normSeq (convUnstructure w { cfg with gen := false } t x) = normSeq (convUnstructure w { cfg with gen := true } t x) :=
   C06_unstruct_agree_partial w cfg t x hs hws hI hwt (scalarKeys_of_typed w hws hk hp hs hwt)
@@ -88,8 +82,8 @@ and Optional) coincides, up to `normSeq`, with `Converter`'s encoding by DECLARE
 theorem C06_runtime_vs_declared (w : World) (cB cG : Cfg) (t : Ty) (x : Obj)
     (hB : cB.gen = false) (hG : cG.gen = true) (hT : cB.tupleStrat = cG.tupleStrat)
     (hs : t.supU false = true) (hws : w.SupU false)
-    (hI : cG.tupleStrat = true ∨ w.AllInit)
-    (hwt : wellTyped w t x = true) (hsk : x.scalarKeys = true) :
+    (hI : cG.tupleStrat = true ∨ (AllInit w))
+    (hwt : wellTyped w t x = true) (hsk : (scalarKeys x) = true) :
     normSeq (unAny w cB x) = normSeq (un w cG t x) :=
   ((un_agree_aux w cB cG hws hB hG hT hI (sizeOf x)).2 (sizeOf t) t x (Nat.le_refl _) (Nat.le_refl _) hs hwt hsk).1
 
@@ -106,12 +100,12 @@ theorem C06_initfalse_witness :
     normSeq (convUnstructure c06W2 { c06Dict with gen := false } (.cls 0) c06A1)
         = .dict [(.str "a", .int 1), (.str "b", .int 5)] ∧
     normSeq (convUnstructure c06W2 { c06Dict with gen := true } (.cls 0) c06A1) = .dict [(.str "a", .int 1)] ∧
-    wellTyped c06W2 (.cls 0) c06A1 = true ∧ c06A1.scalarKeys = true := by
+    wellTyped c06W2 (.cls 0) c06A1 = true ∧ (scalarKeys c06A1) = true := by
   refine ⟨?_, ?_, ?_, ?_⟩
   · simp [convUnstructure, c06Dict, Cfg.core, c06A1, un, unFields, emits, c06W2, World.fields, Field.key, normSeq, normSeqKV]
   · simp [convUnstructure, c06Dict, Cfg.core, c06A1, un, unFields, emits, c06W2, World.fields, Field.key, normSeq, normSeqKV]
   · simp [c06A1, c06W2, wellTyped, wellTypedF, World.fields]
-  · simp [c06A1, Obj.scalarKeys, Obj.scalarKeysF]
+  · simp [c06A1, scalarKeys, scalarKeysF]
 
 /-! Non-vacuity: a recursive class with a homogeneous-tuple field and an `Any` field; a value on which the two
 engines really differ before normalisation, and a nested payload satisfying `mapsAtCls`. -/
@@ -128,8 +122,8 @@ def c06X3 : Obj :=
 
 example : (Ty.coll .list (.cls 0)).supU false = true := by simp [Ty.supU]
 example : c06W3.SupU false := World.supUB_sound _ _ (by decide)
-example : c06W3.AllInit := World.allInitB_sound _ (by decide)
-example : c06X3.scalarKeys = true := by decide
+example : (AllInit c06W3) := allInitB_sound _ (by decide)
+example : (scalarKeys c06X3) = true := by decide
 example : wellTyped c06W3 (.coll .list (.cls 0)) (.coll .list [c06X3]) = true := by
   simp [c06X3, c06W3, wellTyped, wellTypedL, wellTypedF, wellTypedAny, wellTypedAnyL, World.fields, SK.structTo]
 example : convUnstructure c06W3 { c06Dict with gen := false } (.cls 0) c06X3 =
@@ -142,8 +136,8 @@ example : convUnstructure c06W3 { c06Dict with gen := true } (.cls 0) c06X3 =
            (.str "c", .coll .list [.coll .list [.int 3]]), (.str "d", .none)] := by
   simp [convUnstructure, c06Dict, Cfg.core, c06X3, c06W3, un, unL, unAny, unAnyL, unFields, emits, World.fields, Field.key,
     mkColl, CK.isSet, CK.anyTo, SK.unstructTo]
-example : (Ty.map .dict (.opt (.enum 0)) (.coll .fset .str)).keysHP = true := by simp [Ty.keysHP, Ty.hashPrim, SK.structTo, CK.isSet]
-example : c06W1.KeysHP := by
+example : keysHP (Ty.map .dict (.opt (.enum 0)) (.coll .fset .str)) = true := by simp [keysHP, Ty.hashPrim, SK.structTo, CK.isSet]
+example : (KeysHP c06W1) := by
   intro c f hf
   match c with
   | 0 => simp [c06W1, World.fields] at hf; subst hf; exact ⟨.int, rfl, rfl⟩
